@@ -13,6 +13,7 @@ func init() {
 			"with 0-3 +K@ hints (5-character cluster, known gateway, unknown gateway) mixed with other hints; repeated with the services listed in reverse order, after removing/adding one service, and a write of k replicas followed by a read. " +
 			"Stream small-writes: 1-3 writable services with Want_replicas >= their number (PutB/PutHB; proxy/mixed/disk types through LoadKeepServicesFromJSON, SetServiceRoots, lazily discovered KeepServiceURIs; all 403, all 500 with retry rounds, all 200 rep 1, all 200 rep 2 so that the client stops early): every round of one-at-a-time uploads must be a prefix of the reference order and of the same client's read order, identically for three independently built clients. " +
 			"Stream lazy: a fresh, not yet discovered KeepClient per case (New() or struct literal; services from a stub API's keep_services/accessible list - in-process transport or httptest server - or from KeepServiceURIs) looks up a hinted locator (Get/Ask) as its very first operation, then again: hints first, reference order after, same sequence both times. " +
+			"Stream read-retries: reads (Get/Ask) with Retries 1-3 over 8-16 (sometimes 3-7) services plus cluster / separate-gateway hints, most hosts failing transiently (connection error, 408, 429, 5xx) round after round until one answers or all give up; the probe sequence is split into rounds and EVERY round is judged: hints before un-hinted services, un-hinted services in non-increasing reference weight, each retry round a subsequence of the previous round, nobody asked again who did not fail transiently. " +
 			"Balancer part (services/keep-balance): servers that the real balanceBlock sends Pulls to (one replica on the last server, desired k=1..n-1) and does not send Trashes to (old replica everywhere, desired k), also after a membership change and with the services inserted in another order. " +
 			"Stream concurrent (same package): the REAL concurrent path - a Balancer whose BlockStateMap holds 1200-3000 blocks (one replica on the last server, or an old replica everywhere; desired k 1-4) is run through ComputeChangeSets with GOMAXPROCS set to 4-16 in the harness, every service's ChangeSet is read back and the Pull/Trash targets of every block are judged against the reference top-k and the client's observed probe order. " +
 			"Reference = services by descending MD5hex(hash + last 15 characters of the 27-character uuid) computed in the harness (validated against the 4 published probe-order vectors); for other uuid lengths only permutation / determinism / stability / client-vs-balancer agreement are judged; equal weights accept either order. " +
